@@ -129,6 +129,27 @@ func gobSources(tier string) []*Dec {
 			}
 		}
 	}
+	// infinities and zeros that still carry the accuracy of the overflow / underflow that produced them
+	for k, p := range []uint32{1, 34} {
+		for _, neg := range []bool{false, true} {
+			big1e := mkInt64(1, 0, 5, 0)
+			big1e.Exp, big1e.V.E10 = MaxExp, MaxExp-DW
+			sm := mkInt64(1, 0, 5, 0)
+			sm.Exp, sm.V.E10 = MinExp, MinExp-DW
+			y := mkInt64(3, 0, 5, 0)
+			if neg {
+				y.Neg, y.V.Neg = true, true
+			}
+			zi := fresh(p, uint8(k+1))
+			zi.Mul(big1e.Build(), new(Dec).Mul(y.Build(), big1e.Build())) // ±Inf by overflow: Above / Below
+			zz := fresh(p, uint8(k+3))
+			zz.Mul(sm.Build(), new(Dec).Mul(y.Build(), sm.Build())) // ±0 by underflow: Below / Above
+			if !zi.IsInf() || zi.Acc() == 0 || !zz.IsZero() || zz.Acc() == 0 {
+				panic(fmt.Sprintf("gobSources: overflow/underflow decoration failed: %v acc %v, %v acc %v", zi, zi.Acc(), zz, zz.Acc()))
+			}
+			out = append(out, zi, zz)
+		}
+	}
 	// precisions at the top of the uint32 range (word-count arithmetic must not wrap)
 	for _, p := range []uint32{math.MaxUint32, math.MaxUint32 - 1, math.MaxUint32 - 17, math.MaxUint32 - 18, math.MaxUint32 - 19, 1 << 31} {
 		o := mkInt64(-12345, 3, p, ToZero)
@@ -169,8 +190,13 @@ func hostileCase(c *Ctx, buf []byte, desc func() string, pre int) {
 		return
 	}
 	z := buildPre(pre, 0, 0)
-	if pre == preLonger {
+	switch pre {
+	case preLonger:
 		z = buildPre(pre, 7, ToZero)
+	case preCapExact:
+		z = buildPre(pre, 38, ToNearestAway) // a 2-word value filling its buffer
+	case preBigDirty:
+		z = buildPre(pre, 19, ToZero)
 	}
 	cp := append([]byte(nil), buf...)
 	var err error
@@ -184,6 +210,12 @@ func hostileCase(c *Ctx, buf []byte, desc func() string, pre int) {
 	}
 	c.Outcome(b2u(err == nil))
 	if err != nil {
+		// rejected: whatever the receiver holds now, it must be a canonical Decimal
+		if pre != preFresh {
+			if msg := Canonical(Observe(z)); msg != "" {
+				c.Fail(desc(), fmt.Sprintf("payload rejected (%v) but the receiver is left malformed: %s", err, msg))
+			}
+		}
 		return
 	}
 	o := Observe(z)
@@ -331,7 +363,7 @@ func gobLayers(tier string) []Layer {
 	layers = append(layers, Layer{
 		Name:   "J3-corrupted-encodings",
 		Units:  nEnc,
-		Bounds: "64 valid encodings (1..3-word mantissas, specials, all modes): every truncation length, every single-byte substitution by all 256 values, every pair of substitutions in the 10-byte header from {00,01,07,7f,80,ff}, every extension by 1..9 bytes of {00, ff}, mantissa words replaced by 10^19 / 2^64-1 / 0; decoded into a zero-value and into a dirty attributed receiver",
+		Bounds: "64 valid encodings (1..3-word mantissas, specials, all modes): every truncation length, every single-byte substitution by all 256 values, every pair of substitutions in the 10-byte header from {00,01,07,7f,80,ff}, every extension by 1..9 bytes of {00, ff}, mantissa words replaced by 10^19 / 2^64-1 / 0; decoded into a zero-value receiver and into three receivers that hold finite values (4-word value rounded to 7 digits in an 8-word buffer; 2-word value filling its buffer; 1-word value in a 40-word dirty buffer): no panic; success ⇒ canonical (and the format's meaning); rejection ⇒ the receiver is still canonical",
 		Run: func(c *Ctx, u int) {
 			if srcs == nil {
 				srcs = gobSources(tier)
@@ -345,7 +377,7 @@ func gobLayers(tier string) []Layer {
 			desc := func(kind string, b []byte) func() string {
 				return func() string { return fmt.Sprintf("%s of % x -> % x", kind, enc, b) }
 			}
-			for _, pre := range []int{preFresh, preLonger} {
+			for _, pre := range []int{preFresh, preLonger, preCapExact, preBigDirty} {
 				for n := 0; n <= len(enc); n++ {
 					b := enc[:n]
 					hostileCase(c, b, desc("truncation", b), pre)
